@@ -16,6 +16,7 @@ def check(rep):
     PR.rule_compiles(ctx, rid="C02.SHAPE-COMPILES", strict=False)
     n = PR.rule_translation(ctx, focus="control")
     PR.rule_locals_shadow_fields(ctx, "C02.FIELDS-NOT-SHADOWED", consequence="a predicate on that field compares the function object, not the caller's value")
+    PR.rule_fields_reach_predicates(ctx)
     rep.floor("shapes translated and compared with the reference reading", n, 180 if rep.tier == "quick" else 1000)
     PR.rule_trailing_raise(ctx)
     if rep.tier == "thorough":
